@@ -38,7 +38,7 @@ theorem fx_balanced : XmppVerif.Gen.Fx.all.all (fun f => balanced pol f.2) = tru
 
 /-- **Every run of every locking function keeps the lock discipline.** -/
 theorem fx_every_run (name : String) (f : Fx.Fx) (hm : (name, f) ∈ XmppVerif.Gen.Fx.all) :
-    ∀ l s, Runs pol f {} (.ret l s) → s.held = [] ∧ s.bad = false := by
+    ∀ l s, Runs (lockSem pol) f {} (.ret l s) → s.held = [] ∧ s.bad = false := by
   have h := List.all_eq_true.mp fx_balanced (name, f) hm
   exact balanced_sound pol f h
 
